@@ -161,9 +161,10 @@ Proof.
     rewrite Ed. destruct (px_fam p); tauto.
 Qed.
 
-(** Consequence of netip keeping ::ffff:a.b.c.d as a 128-bit address while egress.go unmaps
-    every address it tests: a rule written in IPv4-mapped notation (prefix length >= 96) hits
-    no address at all - neither the IPv4 address it embeds nor its own mapped spelling. *)
+(** Why config.parseEgressRule has to unmap a rule written in IPv4-mapped notation
+    ([compile_prefix], fix 4e2df4c): netip keeps ::ffff:a.b.c.d as a 128-bit address while egress.go
+    unmaps every address it tests, so the prefix *as parsed* (prefix length >= 96) would hit no
+    address at all - neither the IPv4 address it embeds nor its own mapped spelling. *)
 Lemma mapped_notation_rule_is_dead p i :
   px_fam p = F6 -> 96 <= px_bits p -> mapped_lo <= px_addr p <= mapped_hi -> wf_ip i ->
   match netip_from_ip i with Some a => prefix_contains p a | None => false end = false.
